@@ -20,7 +20,7 @@ RULE_KINDS = {
     "quote/output-alphabet": "finite-exhaustive", "dequote/undoes-quote": "finite-exhaustive",         # all 256 units + special-character words, premise checked
     "quote/output-alphabet (bounded)": "bounded", "dequote/undoes-quote (bounded)": "bounded",
     "send/quoted-before-wire": "bounded", "send/terminator": "bounded", "send/siblings-forward-length": "bounded", "split/": "bounded", "limit/": "bounded",
-    "queue/drains-in-order": "bounded",
+    "queue/drains-in-order": "bounded", "ctcp/frame-before-dequote": "structural", "ctcp/extract-undoes-stringify": "bounded",
 }
 IRC = "words/protocols/irc.py"
 TECHNIQUE = "table agreement, def-use, call-graph closure; exhaustive quoting units; bounded send grid"
@@ -421,6 +421,66 @@ def _check_send_path(ctx, env, low_pairs):
               "(1 character -> up to 4 octets)")
 
 
+def _check_ctcp_framing(ctx, env):
+    """ctcpStringify / ctcpExtract: the X_DELIM framing is parsed on the still-quoted text, so quoted delimiters inside the data survive."""
+    mod = ctx.mod(IRC)
+    base = "twisted.words.protocols.irc."
+    fx = ctx.func(IRC, "ctcpExtract")
+    # structural: the text that is split on X_DELIM does not derive from a de-quoting call (de-quoting comes after framing, piece by piece)
+    with structural(ctx, "ctcp/frame-before-dequote", "ctcp/extract-undoes-stringify (bounded)"):
+        splits = [c for c in ast.walk(fx) if isinstance(c, ast.Call) and isinstance(c.func, ast.Attribute) and c.func.attr == "split" and c.args and src(c.args[0]) == "X_DELIM"]
+        if not splits:
+            raise Abstain("no <text>.split(X_DELIM) in ctcpExtract")
+        defs = {}
+        for st in ast.walk(fx):
+            if isinstance(st, ast.Assign):
+                for t in st.targets:
+                    if isinstance(t, ast.Name):
+                        defs.setdefault(t.id, []).append(st.value)
+
+        def dequoted(e, seen=()):
+            if isinstance(e, ast.Call) and (call_name(e) or "").lower().endswith("dequote"):
+                return True
+            if isinstance(e, ast.Name) and e.id in defs and e.id not in seen:
+                return any(dequoted(v, seen + (e.id,)) for v in defs[e.id])
+            return any(dequoted(ch, seen) for ch in ast.iter_child_nodes(e))
+        for c in splits:
+            ctx.check(not dequoted(c.func.value), "ctcp/frame-before-dequote", ctx.construct(base + "ctcpExtract", c),
+                      "the message is de-quoted before it is split on X_DELIM: a quoted delimiter inside CTCP data becomes a raw delimiter again and cuts the data")
+    env = dict(env)
+    for dt in ("mDequoteTable", "xDequoteTable"):          # module-level loops that fill the de-quote tables
+        loops = _module_loops(mod, dt)
+        if loops:
+            env[dt] = {}
+            for lp in loops:
+                eval_block([lp], env)
+    follow = FollowModule(mod, dict(COMPAT), env)
+    extract = interp(fx, follow, env)
+    stringify = interp(ctx.func(IRC, "ctcpStringify"), follow, env)
+    delim, xq = env["X_DELIM"], env["X_QUOTE"]
+    bad = None
+    n = 0
+    for w in words((delim, xq, "a", " ", "\x10"), 3):
+        data = "".join(w)
+        for msgs in ([("TAG", data)], [("PING", "1"), ("X" + data.replace(" ", ""), data)]):
+            try:
+                wire = stringify(msgs)
+                got = extract("pre" + wire)
+            except (Raised, BlockRaised) as ex:
+                raise AnalysisError(f"ctcpStringify / ctcpExtract not evaluable on {msgs!r}: {ex}")
+            n += 1
+            want_ext = []
+            for tag, d in msgs:
+                text = f"{tag} {d}" if d else str(tag)
+                t_, _, d_ = text.partition(" ")
+                want_ext.append((t_, d_ if " " in text else None))
+            if (got.get("extended"), got.get("normal")) != (want_ext, ["pre"]) and bad is None:
+                bad = (msgs, wire, got)
+    ctx.check(bad is None, "ctcp/extract-undoes-stringify", base + "ctcpExtract ~ ctcpStringify",
+              bad and f"ctcpStringify({bad[0]!r}) = {bad[1]!r} is read back by ctcpExtract as {bad[2]!r}: every (tag, data) pair must come back, and nothing else",
+              detail=f"{n} messages, data over {{X_DELIM, X_QUOTE, 'a', ' ', M_QUOTE}}^<=3")
+
+
 def _check_queue(ctx, env):
     """The rate-limit queue of IRCClient: lines leave in the order they were queued."""
     mod = ctx.mod(IRC)
@@ -486,6 +546,8 @@ def check(ctx):
         _check_quoting(ctx, env, cenv, "ctcp", "ctcpQuote", "ctcpDequote", "X_QUOTE", "xQuoteTable", "xDequoteTable", ("X_DELIM",))
     with sect(ctx, "send path"):
         _check_send_path(ctx, env, low)
+    with sect(ctx, "CTCP framing"):
+        _check_ctcp_framing(ctx, env)
     with sect(ctx, "rate-limit queue"):
         _check_queue(ctx, env)
 
@@ -518,6 +580,8 @@ MUTANTS = [
            "    w = textwrap.TextWrapper(width=length, replace_whitespace=False)\n    return [chunk for line in str.split(\"\\n\") for chunk in w.wrap(line)]\n", expect_rule="limit/plain-text-within-budget"),
     Mutant("queue-drained-newest-first", IRC, "            self._reallySendLine(self._queue.pop(0))\n", "            self._reallySendLine(self._queue.pop())\n", expect_rule="queue/"),
     Mutant("queue-filled-at-the-head", IRC, "            self._queue.append(line)\n", "            self._queue.insert(0, line)\n", expect_rule="queue/"),
+    Mutant("ctcp-dequote-before-framing", IRC, "    messages = message.split(X_DELIM)\n", "    messages = ctcpDequote(message).split(X_DELIM)\n", expect_rule="ctcp/"),
+    Mutant("ctcp-extended-parts-not-dequoted", IRC, "    extended_messages[:] = list(map(ctcpDequote, extended_messages))\n", "", expect_rule="ctcp/extract-undoes-stringify"),
     Mutant("heartbeat-writes-raw", IRC, '        self.sendLine("PING " + self.hostname)\n', '        self.transport.write(("PING " + self.hostname).encode("utf-8") + b"\\r\\n")\n',
            expect_rule="send/single-wire-path"),
 ]
@@ -551,6 +615,7 @@ SILENT = [
            more=[(IRC, "    def msg(self, user, message, length=None):\n", "    def _room(self, fmt, user, length):\n        overhead = len(fmt) + 2\n        if length <= overhead:\n            raise ValueError(\"Maximum length must exceed %d for message to %s\" % (overhead, user))\n        return length - overhead\n\n    def msg(self, user, message, length=None):\n")]),
     Silent("split-as-generator", IRC, "    return [chunk for line in str.split(\"\\n\") for chunk in textwrap.wrap(line, length)]\n",
            "    def pieces():\n        for paragraph in str.split(\"\\n\"):\n            yield from textwrap.wrap(paragraph, length)\n\n    return list(pieces())\n"),
+    Silent("ctcp-dequote-by-comprehension", IRC, "    extended_messages[:] = list(map(ctcpDequote, extended_messages))\n", "    extended_messages[:] = [ctcpDequote(piece) for piece in extended_messages]\n"),
     Silent("budget-guard-rewritten", IRC, "        if length <= minimumLength:\n", "        if not length > minimumLength:\n"),
     Silent("dequote-table-comprehension-free", IRC, "for k, v in mQuoteTable.items():\n    mDequoteTable[v[-1]] = k\n", "for k, v in mQuoteTable.items():\n    mDequoteTable[v[1:]] = k\n"),
     Silent("notice-length-keyword", IRC, '        self._sendMessage("NOTICE", user, message, length)\n', '        self._sendMessage("NOTICE", user, message, length=length)\n'),
